@@ -178,8 +178,42 @@ def floatOp (env : Array Dec) (xs fps : String) : Step :=
     { env := env, skipExtra := true, spec := andSpec sp (frameOk env []), tags := ["float"] }
   | _, _ => badStep env "float"
 
+/-- `z := c.NewFloat64(x)`: a fresh Decimal with the context's precision and mode; a NaN argument is recorded
+    in the context (unless an earlier error is pending — the latch is a flag here) and never raised. -/
+def ctxNewFloat64Op (env : Array Dec) (c : Ctx) (zs hs : String) : Step :=
+  match getVar env zs, hexNat hs with
+  | some (zi, _), some bits =>
+    let z0 : Dec := { form := .zero, neg := false, mant := 0, len := 0, exp := 0, prec := c.prec, mode := c.mode, acc := 0 }
+    let (z', oc) := setFloat64 z0 bits
+    let isNaN := oc == .errNaN
+    let c' := if isNaN then { c with err := true } else c
+    let E : Nat := bits / 2 ^ 52 % 2048
+    let F : Nat := bits % 2 ^ 52
+    let neg : Bool := (bits / 2 ^ 63 % 2 : Nat) == 1
+    let q : Rat := if E == 0 then (F : Rat) * Spec.pow2Rat (-1074) else ((2 ^ 52 + F : Nat) : Rat) * Spec.pow2Rat ((E : Int) - 1075)
+    let sp : Outcome → String → Array Dec → Option String := fun o _ genv =>
+      if o != .ok then some "Context.NewFloat64 panicked (a NaN must be latched)" else
+      match genv[zi]? with
+      | none => some "no result"
+      | some g =>
+        if g.prec != c.prec || g.mode != c.mode then some "result does not carry the context's precision and mode"
+        else if isNaN || E == 2047 || (E == 0 && F == 0) then none
+        else
+          -- finite: at most one unit in the last place from the correctly rounded value (exact when it fits), as SetFloat64
+          let correct := Spec.round c.mode c.prec neg q 0
+          if correct.acc == 0 then (if Spec.agreesValue g correct then none else some "binary value representable but not stored exactly")
+          else
+            let cv : Rat := (correct.coef : Rat) * Spec.pow10Rat (correct.exp - (c.prec : Int))
+            let d := absRat (decRat g - cv) / Spec.pow10Rat (correct.exp - (c.prec : Int))
+            if correct.form != .finite || g.form != .finite || d ≤ 1 then none else some "more than one unit in the last place from the correctly rounded value"
+    { env := env.set! zi z', ctx := some c', skipVars := if isNaN then [zi] else [],
+      spec := andSpec sp (andSpec (frameOk env [zi]) canonicalAll),
+      tags := ["cnewf64"] ++ (if isNaN then ["nan"] else []) ++ (if c.err then ["latched"] else []) }
+  | _, _ => badStep env "cnewf64"
+
 def doOp5 (env : Array Dec) (c : Ctx) (toks : List String) : Step :=
   match toks with
+  | ["cnewf64", z, h] => ctxNewFloat64Op env c z h
   | ["setfloat64", z, h] => setFloat64Op env z h
   | ["float64", x] => toFloatOp env "float64" x
   | ["float32", x] => toFloatOp env "float32" x
